@@ -182,6 +182,7 @@ class C16(PropCheck):
         c = self.gen_sample()
         c['cls'] = 'Sample'
         c['burn'] = 0
+        c['exact'] = False                    # the row count may have changed (burn-in dropped): compare means with tolerance
         n = len(c['outputs'][0][1])
         if what == 'missing_name':
             c['names'] = c['names'] + ['nope']
